@@ -97,4 +97,9 @@ theorem C14_cex_preview_differs :
     (preprocess ["Alpha"] f4Defs).toOption.isSome = true ∧ firstArr ≠ f4Defs ∧ firstOut ≠ secondOut := by
   refine ⟨by decide, by decide, by decide⟩
 
+/-- **DeleteModel emits its DROP TABLE statements while walking the field list itself** (no set of table names in
+between): their order is the declaration order of the many-to-many fields in every process.  Read from the source on
+every run. -/
+theorem C14_source_delete_model_ordered : DEvo.Generated.deleteModelIteration = "ordered" := by decide
+
 end DEvo.Props.C14
